@@ -850,6 +850,17 @@ add("C08", "revert: replace() clears the links of a node contained in its own re
 add("C08", "revert: pushdown_dnf embeds the looked-up predicate itself", "sqlglot/optimizer/pushdown_predicates.py",
     "                node.on(predicate.copy(), copy=False)", "                node.on(predicate, copy=False)", "C08.g")
 
+add("C08", "revert: star REPLACE embeds the looked-up replacement itself for every source", "sqlglot/optimizer/qualify_columns.py",
+    "                    replaced = replaced_columns.get(name)\n                    selection_expr = (\n                        replaced.copy()\n                        if replaced\n                        else exp.column(name, table=table, quoted=quoted)\n                    )\n",
+    "                    selection_expr = replaced_columns.get(name) or exp.column(\n                        name, table=table, quoted=quoted\n                    )\n", "C08.g")
+add("C08", "revert: elimination stores the surviving operand in two places", "sqlglot/optimizer/simplify.py",
+    "                    op.replace(complement.copy())\n", "                    op.replace(complement)\n", "C08.k")
+add("C08", "merged projection moved into the first reference, then wrapped in place for a later one", "sqlglot/optimizer/merge_subqueries.py",
+    "            column.replace(expression.copy() if i < last else expression)\n",
+    "            column.replace(expression.copy() if i > 0 else expression)\n", "C08.k")
+add("C08", "benign: last-reference move written as an if statement", "sqlglot/optimizer/merge_subqueries.py",
+    "            column.replace(expression.copy() if i < last else expression)\n",
+    "            if i == last:\n                column.replace(expression)\n            else:\n                column.replace(expression.copy())\n", "silent")
 add("C08", "__deepcopy__ restores the root's cached hash after the children were attached", "sqlglot/expressions/core.py",
     "                    copy.args[k] = vs\n\n        return root\n",
     "                    copy.args[k] = vs\n\n        root._hash = self._hash\n        return root\n", "C08.d")
